@@ -62,6 +62,7 @@ theorem kloop_post {n : Nat} (hn : 0 < n) (rest : List Edge) : ∀ (pre : List E
     have hle : ∀ f ∈ s.acc, f.w ≤ e.w := fun f hf =>
       (List.pairwise_append.1 hs).2.2 f (h.sub.subset hf) e List.mem_cons_self
     unfold kloop
+    rw [breakOff_eq]
     split
     · -- rejected: endpoints already joined
       rename_i heq
